@@ -24,6 +24,7 @@ inductive Err
   | sizeLimit      -- bytex.ErrSizeLimit
   | unexpectedEOF  -- io.ErrUnexpectedEOF
   | overflow       -- encoding/binary: varint overflows a 64-bit integer
+  | io             -- an error of the underlying io.Reader other than io.EOF (a failing source)
 deriving DecidableEq, Repr
 
 /-- outcome of a call that returns `(value, error)` -/
@@ -388,20 +389,25 @@ def digestPat (seed n : Nat) : Nat := digestPatLoop seed n 0 0
 
 /-! ### stream source and ReaderX -/
 
-/-- an `io.Reader`: the chunks it will deliver; `eager` = it returns `io.EOF` together with the last bytes -/
+/-- an `io.Reader`: the chunks it will deliver; `eager` = it reports its final event together with the last bytes;
+    `fail` = that final event is an I/O error of its own (the source breaks after the chunks) instead of `io.EOF` -/
 structure Src where
   eager : Bool
   chunks : List Bytes
+  fail : Bool
 deriving DecidableEq, Repr
 
 def Src.flat (s : Src) : Bytes := s.chunks.flatten
 
-/-- one `reader.Read(p)` call with `len(p) = n > 0`: bytes delivered, whether the error is io.EOF, chunks left -/
-def srcRead (eager : Bool) (n : Nat) : List Bytes → Bytes × Bool × List Bytes
-  | [] => ([], true, [])
+/-- the error a source reports when it has nothing more to deliver -/
+def endErr (fail : Bool) : Err := if fail then .io else .eof
+
+/-- one `reader.Read(p)` call with `len(p) = n > 0`: bytes delivered, the error returned with them, chunks left -/
+def srcRead (eager fail : Bool) (n : Nat) : List Bytes → Bytes × Option Err × List Bytes
+  | [] => ([], some (endErr fail), [])
   | c :: rest =>
     let left := if n < c.length then c.drop n :: rest else rest
-    (c.take n, eager && left.isEmpty, left)
+    (c.take n, if eager && left.isEmpty then some (endErr fail) else none, left)
 
 /-- the `io.ReadFull` loop: keep calling `Read` until `n` bytes arrived or the source ended -/
 def pull : Nat → List Bytes → Bytes × List Bytes
@@ -413,20 +419,24 @@ def pull : Nat → List Bytes → Bytes × List Bytes
       (c ++ r.1, r.2)
     else (c.take n, if n < c.length then c.drop n :: rest else rest)
 
-/-- `ReaderX.Read(p)`, `len(p) = n` -/
+/-- `ReaderX.Read(p)`, `len(p) = n`. Under `full` (`io.ReadFull`): all `n` bytes ⇒ nil (whatever came with the last
+    ones); fewer ⇒ the source's own error if it failed, else io.EOF (nothing read) / io.ErrUnexpectedEOF (mapped or not). -/
 def streamRead (c : Cfg) (n : Nat) (s : Src) : Out Bytes × Src :=
   if n = 0 then (.ok [], s)
   else match c.strategy with
     | .full =>
       let r := pull n s.chunks
-      if r.1.length = n then (.ok r.1, ⟨s.eager, r.2⟩)
-      else if r.1.isEmpty then (.err .eof, ⟨s.eager, r.2⟩)
-      else (.err (if c.mapShort then .empty else .unexpectedEOF), ⟨s.eager, r.2⟩)
+      if r.1.length = n then (.ok r.1, { s with chunks := r.2 })
+      else if s.fail then (.err .io, { s with chunks := r.2 })
+      else if r.1.isEmpty then (.err .eof, { s with chunks := r.2 })
+      else (.err (if c.mapShort then .empty else .unexpectedEOF), { s with chunks := r.2 })
     | _ =>
-      let r := srcRead s.eager n s.chunks
-      if r.2.1 then (.err .eof, ⟨s.eager, r.2.2⟩)
-      else if r.1.length ≠ n then (.err .empty, ⟨s.eager, r.2.2⟩)
-      else (.ok r.1, ⟨s.eager, r.2.2⟩)
+      let r := srcRead s.eager s.fail n s.chunks
+      match r.2.1 with
+      | some e => (.err e, { s with chunks := r.2.2 })
+      | none =>
+        if r.1.length ≠ n then (.err .empty, { s with chunks := r.2.2 })
+        else (.ok r.1, { s with chunks := r.2.2 })
 
 /-- `ReaderX.ReadN(n)` -/
 def streamReadN (c : Cfg) (n : Int) (s : Src) : Out Bytes × Src :=
@@ -443,6 +453,11 @@ def streamZReadN (c : Cfg) (n : Int) (s : Src) : Out Bytes × Src :=
 def streamFixed (c : Cfg) (n : Nat) (s : Src) : Out Nat × Src :=
   let r := streamRead c n s
   (r.1.map leVal, r.2)
+
+/-- the four varint reads (BufferX only) -/
+def Ty.isVarint : Ty → Bool
+  | .varU64 | .varI64 | .varU32 | .varI32 => true
+  | _ => false
 
 /-- the read types `ReaderX` offers -/
 def Ty.streamable : Ty → Bool
